@@ -236,7 +236,10 @@ pub fn execute_case(scen: &dyn Scenario, case: &Value, trace: bool) -> (Ctx, Res
     // (a scratch buffer, a cache) cannot travel from one case to the next, so a case is a pure
     // function of its file whatever ran before it on the worker - and a replay in a fresh process
     // sees exactly what the original run saw
-    if scen.light() {
+    // (a light case that is preceded by refused calls on its thread gets a thread of its own too:
+    // what those calls may leave behind must not depend on what the worker ran before, and a
+    // re-execution must meet the same leftovers)
+    if scen.light() && !poisoned(scen, crate::scen::case_sig(case)) {
         return execute_case_here(scen, case, trace);
     }
     let stack = if IN_CHILD.load(Ordering::SeqCst) { 8 << 20 } else { 2 << 20 };
@@ -250,6 +253,16 @@ pub fn execute_case(scen: &dyn Scenario, case: &Value, trace: bool) -> (Ctx, Res
     })
 }
 
+/// One case in eight (one in 64 for the microsecond-sized header scenarios, where the thread a
+/// poisoned case needs would otherwise dominate the batch) is preceded by refused calls.
+fn poisoned(scen: &dyn Scenario, sig: u64) -> bool {
+    if scen.light() {
+        sig % 64 == 0
+    } else {
+        sig % 8 == 0
+    }
+}
+
 fn execute_case_here(scen: &dyn Scenario, case: &Value, trace: bool) -> (Ctx, Result<(), Violation>, Option<String>) {
     let mut ctx = Ctx::default();
     if trace {
@@ -258,7 +271,7 @@ fn execute_case_here(scen: &dyn Scenario, case: &Value, trace: bool) -> (Ctx, Re
     // one case in eight is preceded by refused calls on the same thread (a pure function of the
     // case, so replays reproduce it): failed calls must leave no trace in later ones
     let sig = crate::scen::case_sig(case);
-    if sig % 8 == 0 {
+    if poisoned(scen, sig) {
         sut::poison_thread(sig);
         ctx.bump("fired_refused_calls_before_case", 1);
         ctx.trace(|| "preceded by refused calls on the same thread (poison)".to_string());
